@@ -403,8 +403,54 @@ def _strip(v):
     return v
 
 
+def _deep_show(v):
+    v = _strip(v)
+    if isinstance(v, App):
+        return "%s(%s)" % (v.fn, ", ".join(_deep_show(x) for x in v.args))
+    return show(v)
+
+
+def _rem_forms():
+    """the integer remainder of (a, b): the primitive itself, or a - (a / b) * b spelled with checked or plain primitives"""
+    out = {"num::CheckedRem::checked_rem(a, b)", "std::ops::Rem::rem(a, b)"}
+    for sub in ("num::CheckedSub::checked_sub", "std::ops::Sub::sub"):
+        for mul in ("num::CheckedMul::checked_mul", "std::ops::Mul::mul"):
+            for div in ("num::CheckedDiv::checked_div", "std::ops::Div::div"):
+                q = "%s(a, b)" % div
+                out.add("%s(a, %s(%s, b))" % (sub, mul, q))
+                out.add("%s(a, %s(b, %s))" % (sub, mul, q))
+    return out
+
+
+def remainder_value(chk, fb, tab, RID):
+    forms = _rem_forms()
+    n = 0
+    for ent in tab:
+        if ent["apply"] is None or ent["repr"] != "%":
+            continue
+        ps, err = run_target(fb, ent["apply"], [val_of("Int", "a"), val_of("Int", "b")])
+        if err:
+            chk.unrecognised(RID, "val:%", err, ent["loc"])
+            continue
+        bad, seen = False, 0
+        for p in ps:
+            if p.status != "return" or not isinstance(p.result, Variant) or p.result.variant in ("Error", None):
+                continue
+            seen += 1
+            pay = p.result.fields.get("0")
+            if p.result.variant != "Int" or pay is None or _deep_show(pay) not in forms:
+                bad = True
+                chk.violation(RID, "val:%:Int,Int", "`Int %% Int` returns %s; documented: the remainder a - (a / b) * b of the two operands in this order, on every path that is not an error" % show(p.result)[:140], ent["loc"])
+        n += 1
+        if seen == 0:
+            chk.violation(RID, "val:%:none", "`Int % Int` never returns a value", ent["loc"])
+        elif not bad:
+            chk.ok(RID, "scalar value of %", "%d value paths" % seen, ent["loc"])
+    chk.floor(RID, "remainder operator", n, 1)
+
+
 def scalar_values(chk, fb, tab, RID="R16.7"):
-    chk.rule(RID, "scalar operands: + - * / min max | & XOR atan2 return exactly the primitive of their name applied to the two operands (checked for integers, after promotion for int with float), in the documented order")
+    chk.rule(RID, "scalar operands: + - * / min max | & XOR atan2 return exactly the primitive of their name applied to the two operands (checked for integers, after promotion for int with float), in the documented order; int % int returns the remainder a - (a / b) * b on every non-error path")
     n = 0
     for ent in tab:
         r = ent["repr"]
@@ -439,3 +485,4 @@ def scalar_values(chk, fb, tab, RID="R16.7"):
         if not bad:
             chk.ok(RID, "scalar value of %s" % r, "", ent["loc"])
     chk.floor(RID, "operators with a documented scalar primitive", n, 10)
+    remainder_value(chk, fb, tab, RID)
